@@ -1317,7 +1317,7 @@ THEOREMS = ["FaxVerif.C12." + t for t in [
     "return_type_faithful_partial", "return_type_faithful_counterexample", "callable_by_value_partial", "callable_by_value_counterexample",
     "documented_accepted_partial", "documented_accepted_counterexample", "rows_reached_partial", "cfg_ok",
     "resolver_spec", "replaced_iff", "call_emitted", "includes_of_called", "usable_in_arithmetic", "scoped_faithful", "refused_only_unresolved",
-    "computes_namesake_partial", "spec_partial", "documented_plain_partial", "documented_scoped_partial", "abs_scope", "documented_never_refused_partial",
+    "computes_namesake_partial", "spec_partial", "documented_plain_partial", "documented_scoped_partial", "abs_scope_partial", "documented_never_refused_partial",
     "computes_namesake_counterexample_round", "computes_namesake_counterexample_remquo", "computes_namesake_counterexample_ilogb",
     "computes_namesake_counterexample_abs_int",
 ]]
